@@ -27,6 +27,16 @@ def run_check(pid, tier):
     chk = core.Check(pid, mod.LEVEL, tier)
     try:
         mod.run(ctx, chk)
+        if tier == 'thorough':
+            # second configuration: the other cargo profile (release MIR has no overflow / pointer
+            # checks and different tracing levels; C19 is release-first, so its second run is dev)
+            other = 'dev' if getattr(mod, 'PRIMARY_PROFILE', 'dev') == 'release' else 'release'
+            ctx2 = core.Ctx(tier, profile=other)
+            ctx2.force_profile = other
+            chk.suffix = '@' + other
+            mod.run(ctx2, chk)
+            chk.suffix = ''
+            ctx.configs += ctx2.configs
         return chk.finish(ctx)
     except core.InfraError as e:
         print('ERROR: infrastructure failure, no verdict: %s' % e)
